@@ -16,7 +16,10 @@ Any of the following that no longer holds raises (the check then reports a broke
  4. Transport.connect: start_client() precedes the host key comparison, whose
     raise SSHException("Bad host key from server") precedes every self.auth_X( call;
  5. SSHClient.connect: t.start_client( precedes missing_host_key( and raise BadHostKeyException(,
-    which precede auth_strategy.authenticate( and self._auth(;
+    which precede auth_strategy.authenticate( and self._auth(; that host key block is the body of the
+    top-level `if not self._transport.gss_kex_used:` with exactly the three known inner conditions, and
+    gss_kex_used is assigned False in Transport.__init__ / _send_kex_init and True in kex_gss.py only
+    (so it reflects a NEGOTIATED gss kex, never what the peer advertises);
  6. AuthHandler._request_auth sends only SERVICE_REQUEST; the credential-bearing USERAUTH_REQUEST is
     built in _parse_service_accept only.
 """
@@ -183,6 +186,51 @@ def generate(repo):
         else:
             _need(not any(isinstance(n, ast.Raise) for n in ast.walk(fn)) and must in src,
                   "%s.missing_host_key changed" % pol)
+
+    # ---- 5b. gss_kex_used: where it is assigned, and that it alone skips the host key block ------------
+    gsites = []
+    for path in sorted(glob.glob(os.path.join(pk, "*.py"))):
+        tree = ttree if os.path.basename(path) == "transport.py" else ast.parse(open(path).read())
+        for cls in (n for n in ast.walk(tree) if isinstance(n, ast.ClassDef)):
+            for fn in (n for n in cls.body if isinstance(n, ast.FunctionDef)):
+                for n in ast.walk(fn):
+                    if isinstance(n, (ast.Assign, ast.AugAssign, ast.AnnAssign)):
+                        tg = n.targets if isinstance(n, ast.Assign) else [n.target]
+                        for t in tg:
+                            if isinstance(t, ast.Attribute) and t.attr == "gss_kex_used":
+                                gsites.append((os.path.basename(path), cls.name, fn.name, ast.unparse(n.value)))
+        src = open(path).read()
+        _need("setattr" not in src or "gss_kex_used" not in "".join(
+            l for l in src.splitlines() if "setattr" in l), "setattr of gss_kex_used in %s" % path)
+    for f, c, fname, val in gsites:
+        if f == "transport.py":
+            _need((c, fname, val) in (("Transport", "__init__", "False"), ("Transport", "_send_kex_init", "False")),
+                  "gss_kex_used assigned in transport.py at %s.%s = %s (only the reset to False is modelled; "
+                  "it must be set by a NEGOTIATED gss kex engine only)" % (c, fname, val))
+        else:
+            _need(f == "kex_gss.py" and val == "True",
+                  "gss_kex_used assigned outside the GSS kex engines: %s %s.%s = %s" % (f, c, fname, val))
+    _need(any(f == "kex_gss.py" for f, _, _, _ in gsites) and
+          sum(1 for f, _, _, _ in gsites if f == "transport.py") == 2, "gss_kex_used assignment sites changed: %r" % gsites)
+    # the kex engine that runs is the negotiated one: self.kex_engine = self._kex_info[agreed_kex[0]](self)
+    _need("self.kex_engine = self._kex_info[agreed_kex[0]](self)" in ast.unparse(_fn(T, "_parse_kex_init")),
+          "_parse_kex_init no longer instantiates the kex engine of the negotiated algorithm")
+    # SSHClient.connect: the host key block is the body of the top-level `if not self._transport.gss_kex_used:`
+    blocks = [st for st in cc.body if isinstance(st, ast.If) and "gss_kex_used" in ast.unparse(st.test)]
+    _need(len(blocks) == 1 and ast.unparse(blocks[0].test) == "not self._transport.gss_kex_used"
+          and not blocks[0].orelse, "SSHClient.connect: host key block is no longer guarded by exactly "
+          "`if not self._transport.gss_kex_used:`")
+    blk = blocks[0]
+    _need(blk.lineno < mh[0] <= blk.end_lineno and blk.lineno < bh[0] <= blk.end_lineno,
+          "SSHClient.connect: policy call / BadHostKeyException are outside the host key block")
+    for st in cc.body:
+        if st is not blk and isinstance(st, (ast.If, ast.Try, ast.With, ast.For, ast.While)):
+            _need(not (st.lineno <= mh[0] <= st.end_lineno), "host key block nested under another statement")
+    inner = [n for n in ast.walk(blk) if isinstance(n, ast.If) and n is not blk]
+    _need(sorted(ast.unparse(n.test) for n in inner) ==
+          sorted(["our_server_keys is None", "our_key != server_key", "our_key is None"]),
+          "SSHClient.connect: the conditions inside the host key block changed: %r"
+          % [ast.unparse(n.test) for n in inner])
 
     # ---- 6. credentials leave in _parse_service_accept only ---------------------------------
     atree = ast.parse(open(os.path.join(pk, "auth_handler.py")).read())
